@@ -30,6 +30,8 @@ fn add_fq_counters(ctx: &mut Ctx, c: &fq::Counters) {
     ctx.add("fq_probes", c.probes);
     ctx.max("fq_max_overtaken", c.max_overtaken);
     ctx.add("fq_yielding_streams", c.yielding_streams);
+    ctx.add("fq_waker_changes", c.waker_changes);
+    ctx.add("fq_reinserts_under_a_registered_key", c.reinserts);
     ctx.add("fq_yield_polls", c.yield_polls);
 }
 
@@ -45,6 +47,7 @@ fn add_hist_counters(ctx: &mut Ctx, c: &hist::HistCounters) {
     ctx.add("sock_probes", c.probes);
     ctx.add("sock_envelope_violations_sent", c.envelope_violations_sent);
     ctx.add("sock_messages_ending_in_empty_frame", c.messages_ending_in_empty_frame);
+    ctx.add("sock_reconnects_under_the_same_identity", c.reconnects_same_identity);
     ctx.add("drops_total", c.drops_total);
     ctx.add("drops_with_partial_frame", c.drops_with_partial_frame);
     ctx.add("drops_after_waker_registered", c.drops_after_waker_registered);
@@ -59,6 +62,14 @@ fn report(ctx: &mut Ctx, me: &str, findings: &[fq::Finding], witness: impl Fn() 
             ctx.inconclusive(format!("{me}: {}", f.message));
         } else if f.signature.starts_with(me) {
             ctx.violation_with(&f.signature, f.message.clone(), witness());
+        } else if me == "C06" && f.signature.contains("never-delivered") {
+            // an available message that no recv call ever returns is what C06 forbids too
+            let sig = f
+                .signature
+                .replace("C05/fq/item-never-delivered", "C06/fq/available-item-never-returned")
+                .replace("C05/fq-threaded/item-never-delivered", "C06/fq-threaded/available-item-never-returned")
+                .replace("C05/message-never-delivered", "C06/available-message-never-returned");
+            ctx.violation_with(&sig, f.message.clone(), witness());
         } else if me == "C05" && f.signature.contains("lost-wakeup") {
             // a message the receiver is never woken for is also a message that is
             // never consumed: C05 reports it under its own signature
@@ -392,6 +403,14 @@ fn common_cases(tier: Tier, seed: u64, me: &str) -> Vec<Value> {
     ] {
         v.push(json!({"kind": "fq_actions", "k": 2, "pre": false, "block": true, "acts": acts}));
     }
+    for acts in [
+        vec!["insert(0)", "arrive(0)", "poll", "new-waker", "poll", "arrive(0)"],
+        vec!["insert(0)", "insert(1)", "arrive(1)", "poll", "poll", "new-waker", "poll", "arrive(0)"],
+        vec!["insert(0)", "poll", "reinsert(0)", "arrive(0)"],
+        vec!["insert(0)", "arrive(0)", "poll", "poll", "reinsert(0)", "poll", "arrive(0)"],
+    ] {
+        v.push(json!({"kind": "fq_actions", "k": 2, "pre": false, "block": true, "acts": acts}));
+    }
     // ... and for real: a recv loop in block_on while a peer floods the socket
     for ty in ["PULL", "ROUTER", "REP", "DEALER", "SUB"] {
         v.push(json!({"kind": "busy_recv", "ty": ty, "n": tier.pick(400, 2000)}));
@@ -437,6 +456,8 @@ impl Prop for C05 {
             ("fq_close_mid_poll", 100),
             ("fq_insert_while_parked", 100),
             ("fq_stale_polls", 100),
+            ("fq_waker_changes", 100),
+            ("fq_reinserts_under_a_registered_key", 100),
             ("threaded_runs", 50_000),
             ("sock_deliveries", 5000),
             ("sock_joins_while_recv_pending", 50),
@@ -445,6 +466,7 @@ impl Prop for C05 {
             ("sock_partial_releases", 1000),
             ("sock_envelope_violations_sent", 20),
             ("sock_messages_ending_in_empty_frame", 100),
+            ("sock_reconnects_under_the_same_identity", 20),
         ]
     }
     fn case_timeout(&self) -> std::time::Duration {
